@@ -2,7 +2,10 @@
 """meta.py <seeded-dir> <property> <what-it-changes> <what-it-needs>: writes meta.json for a confirmed seeded change
 from the logs left by tools/mut/confirm.sh."""
 import json, os, re, sys
-d, prop, what, needs = sys.argv[1:5]
+d, prop = sys.argv[1:3]
+_old = json.load(open(os.path.join(d, 'meta.json'))) if os.path.exists(os.path.join(d, 'meta.json')) else {}
+what = sys.argv[3] if len(sys.argv) > 3 else _old.get('change', '')
+needs = sys.argv[4] if len(sys.argv) > 4 else _old.get('needs_to_manifest', '')
 log = open(os.path.join(d, 'check.log')).read() if os.path.exists(os.path.join(d, 'check.log')) else ''
 viol = re.findall(r'^VIOLATION.*$', log, re.M)
 summ = re.findall(r'^%s tier=.*$' % prop, log, re.M)
@@ -23,5 +26,12 @@ meta = {
     'check_result': {'detected': bool(viol), 'violation_line': [re.sub(r'replay=\S+', 'replay=<scratch>/replays/…', v) for v in viol[:1]],
                      'summary': summ[:1], 'replay': rep},
 }
+for k in ('history', 'note'):
+    if k in _old.get('check_result', {}):
+        meta['check_result'][k] = _old['check_result'][k]
+if 'repo_test_suite_with_patch' in _old.get('confirmed_by_coordinator', {}) and 'passes in' in _old['confirmed_by_coordinator']['repo_test_suite_with_patch']:
+    meta['confirmed_by_coordinator']['repo_test_suite_with_patch'] = _old['confirmed_by_coordinator']['repo_test_suite_with_patch']
+if not viol and _old.get('check_result', {}).get('detected') is False and 'note' in _old.get('check_result', {}):
+    meta['check_result'] = _old['check_result']      # cross-property catch recorded by hand: keep
 json.dump(meta, open(os.path.join(d, 'meta.json'), 'w'), indent=1)
 print(os.path.basename(d), 'detected' if viol else 'MISSED')
